@@ -283,6 +283,8 @@ func (m *fStompSubscriberTransport) Unsubscribe() error {
 // subscription channel.
 func (m *fStompSubscriberTransport) processMessages() {
 	stopC := m.stopC
+	// Unsubscribe clears m.callback: keep the callback this subscription was made with
+	callback := m.callback
 	for {
 		select {
 		case <-stopC:
@@ -295,13 +297,20 @@ func (m *fStompSubscriberTransport) processMessages() {
 				return
 			}
 
+			select {
+			case <-stopC:
+				// unsubscribing: messages still buffered are not handed to the callback
+				continue
+			default:
+			}
+
 			if len(message.Body) < 4 {
 				logger().Warnf("frugal: discarding invalid scope message frame, was length '%d'", len(message.Body))
 				continue
 			}
 
 			transport := &thrift.TMemoryBuffer{Buffer: bytes.NewBuffer(message.Body[4:])}
-			if err := m.callback(transport); err != nil {
+			if err := callback(transport); err != nil {
 				logger().Warn("frugal: error executing callback: ", err)
 				continue
 			}
